@@ -1548,8 +1548,9 @@ class WassersteinDistanceNewton(VariationalWassersteinDistance):
             self.darcy_init.copy(), rhs.copy(), solution_i
         )
 
-        # Initialize distance in case below iteration fails
-        new_distance = 0
+        # Initialize distance in case below iteration fails - it needs to describe the
+        # initial iterate, which is returned in that case
+        new_distance = self.l1_dissipation(solution_i[self.flux_slice])
         iteration_failed = False
 
         # Initialize container for storing the convergence history
@@ -1827,8 +1828,9 @@ class WassersteinDistanceBregman(VariationalWassersteinDistance):
             self.darcy_init.copy(), rhs.copy(), solution_i
         )
 
-        # Initialize distance in case below iteration fails
-        new_distance = 0
+        # Initialize distance in case below iteration fails - it needs to describe the
+        # initial iterate, which is returned in that case
+        new_distance = self.l1_dissipation(solution_i[self.flux_slice])
         iteration_failed = False
 
         # Initialize container for storing the convergence history
